@@ -8,6 +8,9 @@ CONSTANTS
   Tols = {10}
   Kinds = {"float", "text"}
   Assocs = {"V", "C"}
+  Owns = {FALSE}
+  PGs = {0}
+  AllowCopy = FALSE
   Deviations = {"SortKeepsCells"}
 INVARIANT CellsJoin
 CHECK_DEADLOCK FALSE
